@@ -7,6 +7,7 @@ import (
 	"net/http/httptest"
 	"net/url"
 	"reflect"
+	"strings"
 	"testing"
 
 	"github.com/gookit/rux"
@@ -52,6 +53,17 @@ func build(tb *model.Table, s *seen) *rux.Router {
 		}
 	})
 	return r
+}
+
+// reqURL is the request URL for a path; under UseEncodedPath the path is an escaped path already and the URL is parsed
+// from it (Router.Match gets the same string).
+func reqURL(tb *model.Table, path string) *url.URL {
+	if tb.Opts.EncodedPath {
+		if u, err := url.ParseRequestURI(path); err == nil && u.EscapedPath() == path {
+			return u
+		}
+	}
+	return &url.URL{Path: path}
 }
 
 func copyPs(ps rux.Params) map[string]string {
@@ -110,7 +122,7 @@ func checkProbe(r *rux.Router, s *seen, tb *model.Table, method, path string, ta
 		// what the handler sees
 		s.n = 0
 		rec := httptest.NewRecorder()
-		r.ServeHTTP(rec, &http.Request{Method: method, URL: &url.URL{Path: path}, Header: http.Header{}})
+		r.ServeHTTP(rec, &http.Request{Method: method, URL: reqURL(tb, path), Header: http.Header{}})
 		if s.n != 1 || s.name != d.Name() {
 			return fmt.Sprintf("ServeHTTP ran handler of %q %d times: %s", s.name, s.n, ctx)
 		}
@@ -135,6 +147,8 @@ func prop(t *rapid.T) {
 		tb.Opts.CacheCap = rapid.IntRange(0, 3).Draw(t, "cap")
 	}
 	tb.Opts.Fallback = rapid.IntRange(0, 4).Draw(t, "fallback") == 0
+	// UseEncodedPath: the router matches the escaped path, and the parameters are substrings of THAT string
+	tb.Opts.EncodedPath = rapid.IntRange(0, 3).Draw(t, "useEncodedPath") == 0
 	tb.Opts.Via, tb.Opts.Order = model.GenVia(t), model.GenOrder(t)
 	cfg := model.TableCfg{MaxRoutes: ev.Pick(4, 8), Gen: model.GenCfg{MaxSegs: ev.Pick(4, 5), MaxOpt: ev.Pick(2, 3), RichLits: true}, Fallback: tb.Opts.Fallback}
 	tb.Routes = model.GenRoutes(t, cfg, tb.Opts.Strict)
@@ -155,6 +169,17 @@ func prop(t *rapid.T) {
 		}
 		if rapid.IntRange(0, 9).Draw(t, "head") == 0 {
 			method = "HEAD"
+		}
+		if tb.Opts.EncodedPath {
+			esc := (&url.URL{Path: path}).EscapedPath()
+			if u := reqURL(tb, esc); u.EscapedPath() != esc || !strings.HasPrefix(esc, "/") {
+				ev.Class("skipped:escaped-path-does-not-survive-parsing")
+				continue
+			}
+			if esc != path {
+				ev.Class("encoded-path-with-escapes")
+			}
+			path = esc
 		}
 		if !model.Stable(path, tb.Opts.Strict) {
 			ev.Class("skipped:unstable-path")
